@@ -62,7 +62,8 @@ fn serialize_range_mappings(sm: &SourceMap) -> Option<String> {
     let mut had_rmi = false;
     let mut empty = true;
 
-    let mut idx_of_first_in_line = 0;
+    // Number of segments `serialize_mappings` has emitted for the current line.
+    let mut segments_in_line = 0;
 
     let mut rmi_data = Vec::<u8>::new();
 
@@ -77,14 +78,21 @@ fn serialize_range_mappings(sm: &SourceMap) -> Option<String> {
             buf.push(b';');
             prev_line += 1;
             had_rmi = false;
-            idx_of_first_in_line = idx;
+            segments_in_line = 0;
         }
+
+        // `serialize_mappings` does not emit a segment for a token that is an exact
+        // duplicate of its predecessor, so it does not get a bit either.
+        if idx > 0 && Some(&token) == sm.get_token(idx - 1).as_ref() {
+            continue;
+        }
+
+        let num = segments_in_line;
+        segments_in_line += 1;
 
         if token.is_range() {
             had_rmi = true;
             empty = false;
-
-            let num = idx - idx_of_first_in_line;
 
             // Make sure the bit buffer is large enough to hold bit `num`.
             let needed_bytes = num / 8 + 1;
